@@ -1,5 +1,7 @@
 import json
 from vcheck import *
+import c29_c30_anchors as A
+from c28_locks import TranslateError as T_ERR
 
 META = {
     "category": "proof",
@@ -12,7 +14,7 @@ META = {
             'the editor texts are the message-order result, every open workspace file is analysed with its latest editor text and every '
             'closed file holds its disk content or is absent when not on disk -- by the invariant "a stale uri is covered by the running '
             'handler or by a reload stage" (stale_is_covered); plus progress and a decreasing measure (every execution with finitely many '
-            'reload requests reaches quiescence). Generated histories (edits before, across and after a reload request aimed at the 2 s '
+            'reload requests reaches quiescence). The facts the model depends on are re-read from the source on every run (sync_open_file / close_open_file bump the version on EVERY call; section order of the handlers and of the reload) and re-proved as obligations (C29/Today.v); bump_only_new_refuted shows what is lost otherwise. Generated histories (edits before, across and after a reload request aimed at the 2 s '
             'debounce; on-disk and virtual documents; a ballast workspace so that the reload takes time) are run against the real in-process '
             'server and the quiescent editor text and analysed text per uri are compared with the model\'s prediction.',
     "note": 'Trusted: Coq kernel; the hand model of the reload and of the three handlers (validated by the correspondence on sampled schedules, '
@@ -22,7 +24,9 @@ META = {
 }
 
 THEOREMS = [("reload_converges", "theorem"), ("stale_is_covered", "theorem"), ("reload_progress", "theorem"),
-            ("reload_terminates", "theorem"), ("reload_example", "example")]
+            ("reload_terminates", "theorem"), ("bump_only_new_refuted", "refutation"), ("reload_example", "example")]
+TODAY_THEOREMS = [("today_version_bumped_on_every_sync", "table"), ("today_section_order", "table"), ("today_reload_converges", "theorem")]
+FACT_TEXT = {'sync_bumps_always': "WorkspaceManager::sync_open_file no longer bumps open_file_state_version on every call (the reload's version loop cannot see edits of already open documents: bump_only_new_refuted)", 'close_bumps_always': 'WorkspaceManager::close_open_file no longer bumps open_file_state_version on every call', 'handler_sections_ok': 'the didOpen/didChange/didClose handlers no longer update the editor texts before the analysis', 'reload_sections_ok': 'apply_workspace_reload / sync_reloaded_open_files no longer have the modelled section order (snapshot, clear, init, version loop)'}
 SIGS = {"open-stale", "closed-not-disk", "closed-not-absent", "editor-text-wrong"}
 TRUSTED = [
     "Coq 8.16.1 kernel (coqc); vm_compute only in the Example and in the correspondence evaluation",
@@ -34,6 +38,7 @@ TRUSTED = [
     "modelling assumptions: uris range over workspace files; the disk is static during a history; document notifications are handled inline "
     "(C27); reloads are serialised (reload_lock) and a superseded request is skipped (reload_generation); each lock-protected section is "
     "atomic (C28: the locks are taken in a deadlock-free order); the didClose re-read that finds the text unchanged is the same as writing it",
+    "lexical anchors lib/c29_c30_anchors.py -> Gen/C29_Sync.v (when the version is bumped; section order), re-proved in C29/Today.v",
     "hook (cfg-gated, absent from normal builds): verif_serve, verif/docState (editor text and analysed text per uri, answered inline)",
 ]
 
@@ -61,7 +66,7 @@ def run(ck, binpath, mode, n):
     if rc != 0:
         ck.tie_broken("harness c29 %s failed (rc=%s)" % (mode, rc), (err or "")[-2000:])
         return []
-    return [json.loads(l) for l in out.splitlines() if l.strip().startswith("{")]
+    return [json.loads(l) for l in jlines(out) if l.strip().startswith("{")]
 
 
 def main(argv):
@@ -73,14 +78,33 @@ def main(argv):
             c = v.get("case", {})
             rc, out, err = ck.run_bin(bins["c29"], ["one", "--case-json", json.dumps({"docs": c.get("docs", []), "hist": c.get("hist", [])}),
                                                     "--dir", ck.work, "--repeat", 3], timeout=900)
-            for l in out.splitlines():
+            for l in jlines(out):
                 if l.strip().startswith("{") and '"signature"' in l:
                     vv = json.loads(l)
                     ck.violation(vv["signature"], vv["what"], vv["case"])
         ck.finish(trusted_base=TRUSTED)
+    # facts of today's source that the model depends on (regenerated on every run)
+    facts = None
+    try:
+        facts = A.c29_facts(REPO)
+        A.write_c29(facts, os.path.join(COQ, "theories", "Gen", "C29_Sync.v"), REPO)
+        ck.cov["distribution"]["source_anchors"] = {k: v for k, v in facts.items() if isinstance(v, bool)}
+        if "sites" in facts:
+            ck.cov["distribution"]["clear_sites"] = ["%s:%d %s" % (q, l, "ok" if o else "BEFORE-REMOVAL") for q, l, o in facts["sites"]]
+        for k, v in facts.items():
+            if isinstance(v, bool):
+                ck.cov["obligations"] += 1
+                if v:
+                    ck.cov["discharged"] += 1
+                else:
+                    ck.proof_broken("today's source breaks an assumption of the C29 model: " + FACT_TEXT.get(k, k), json.dumps(facts, default=str)[:2000])
+    except (A.AnchorError, T_ERR) as ex:
+        ck.tie_broken("source anchors of the C29 model not found: %s" % ex)
     ok = ck.coq_make(["theories/C29/Props.vo", "theories/C29/Corr.vo"])
     if ok:
         ck.coq_gates(["C29"], THEOREMS, "EV.C29.Props")
+    if ok and facts is not None and ck.coq_make(["theories/C29/Today.vo"]):
+        ck.coq_gates([], TODAY_THEOREMS, "EV.C29.Today")
     if bins:
         if ok or os.path.exists(os.path.join(COQ, "theories/C29/Corr.vo")):
             cases = [c for c in run(ck, bins["c29"], "corr", ck.scale(5, 60)) if "obs" in c]
@@ -103,7 +127,7 @@ def main(argv):
                 ck.violation(v["signature"], v["what"], v["case"])
     ck.finish(
         trusted_base=TRUSTED,
-        rule="histories over 1-4 fresh documents (on disk with text 0 / virtual): 0-4 edits, a reload request (.emmyrc.json watched event; "
+        rule="two shapes. (a) all documents open, a reload request, then (wire-order trick: the client does not answer the reload's progress-create request yet) 1-4 change/close of those open documents, then the answer; (b) histories over 1-4 fresh documents (on disk with text 0 / virtual): 0-4 edits, a reload request (.emmyrc.json watched event; "
              "sometimes two), a pause aimed at the server's 2 s reload debounce (1850-2150 ms), then 2-12 open/change/close with 0-60 ms gaps "
              "while the reload of a 150-file ballast workspace runs; observation at quiescence through verif/docState; every history contains a "
              "reload (non-trivial); distinct by (docs, history)",
